@@ -326,6 +326,63 @@ func c13Eval(src string) lib.Outcome {
 	return lib.EvalString(c13Scope, src)
 }
 
+func c13EvalCompiled(src string) lib.Outcome {
+	if c13Scope == nil {
+		c13Scope = slip.NewScope()
+	}
+	return lib.EvalCompiled(c13Scope, src)
+}
+
+// Calls in compiled code (a form compiled with Code.Compile, a call in a lambda / defun body) are
+// resolved by slip.CompileList when the code is compiled, not by ListToFunc / FindFunc: another
+// implementation of "the name resolves to …" that every call lookup is repeated through.
+// Compiling a call to a name the package has NO table entry for is a forward reference; a tree
+// where that registers an (exported) placeholder in the function table (defect repaired by
+// repo-patches/C13/0018) would have its later observations changed by the observation itself, so
+// there such calls are compiled only when the table has an entry (c13ForwardRegisters, probed once
+// per process in a throw-away package; reported by runC13 as a violation of its own).
+var c13ForwardProbed, c13ForwardRegisters bool
+
+const c13ForwardSig = "prefix=empty op=compile-forward-call lookup=own-func effect=fboundp-without-definition"
+
+func c13ForwardLisp() []string {
+	return []string{
+		"(defpackage 'vpfwdprobe (:use cl cl-user))",
+		"(in-package 'vpfwdprobe)",
+		"(funcall (lambda () (qxfwd 0)))",
+		"(fboundp 'qxfwd)",
+	}
+}
+
+// c13ProbeForward: does compiling a call to an undefined function make the name fboundp?
+func c13ProbeForward() (registers bool, observed string) {
+	if c13ForwardProbed {
+		return c13ForwardRegisters, ""
+	}
+	c13ForwardProbed = true
+	l := c13ForwardLisp()
+	c13Eval("(if (find-package 'vpfwdprobe) nil " + l[0] + ")")
+	c13Eval(l[1])
+	call := c13Item(c13Eval(l[2]), "undefined-function")
+	fb := c13Item(c13Eval(l[3]), "")
+	st := c13Item(c13Eval("(nth-value 1 (find-symbol \"qxfwd\"))"), "")
+	c13Eval("(in-package 'cl-user)")
+	c13ForwardRegisters = fb != "nil" || st != "nil"
+	return c13ForwardRegisters, fmt.Sprintf("call => %s, then (fboundp 'qxfwd) => %s, (find-symbol \"qxfwd\") status => %s", call, fb, st)
+}
+
+// c13CompiledCall repeats a call lookup through compiled code: the form compiled with Code.Compile
+// and the call in the body of a lambda compiled in the current package.
+func c13CompiledCall(form string, hasEntry bool) []string {
+	if reg, _ := c13ProbeForward(); reg && !hasEntry {
+		return nil
+	}
+	return []string{
+		c13Item(c13EvalCompiled(form), "undefined-function"),
+		c13Item(c13Eval("(funcall (lambda () "+form+"))"), "undefined-function"),
+	}
+}
+
 // c13Item canonicalises one lookup: a tag, "-" for unbound/undefined, "E:<class>" otherwise.
 func c13Item(o lib.Outcome, unboundClass string) string {
 	if o.Ok {
@@ -412,7 +469,7 @@ func c13Observe(suffix string, defined []bool, cur int, skipName []bool) string 
 			if spell {
 				f2 = c13Same(f2, c13Item(c13Eval("("+mixed(name)+" 0)"), "undefined-function"))
 			}
-			items = append(items, c13Same(f1, f2))
+			items = append(items, c13Same(append([]string{f1, f2}, c13CompiledCall("("+name+" 0)", f1 != "-" || fb == "t")...)...))
 			// status of the name in the package: (find-symbol "n") => nil / :internal / :external / :inherited
 			st := c13Eval("(nth-value 1 (find-symbol \"" + name + "\"))")
 			item := c13Item(st, "")
@@ -444,11 +501,16 @@ func c13Observe(suffix string, defined []bool, cur int, skipName []bool) string 
 					qv = c13Same(qv, c13Item(c13Eval(mixed(qn)+":"+strings.ToUpper(name)), "unbound-variable"))
 					qf = c13Same(qf, c13Item(c13Eval("("+qn+":"+mixed(name)+" 0)"), "undefined-function"))
 				}
+				qqf := c13Item(c13Eval("("+qn+"::"+name+" 0)"), "undefined-function")
+				// q's table has an entry for the name iff q::n reaches something
+				hasEntry := qqf != "-"
+				qf = c13Same(append([]string{qf}, c13CompiledCall("("+qn+":"+name+" 0)", hasEntry)...)...)
+				qqf = c13Same(append([]string{qqf}, c13CompiledCall("("+qn+"::"+name+" 0)", hasEntry)...)...)
 				items = append(items,
 					qv,
 					c13Item(c13Eval(qn+"::"+name), "unbound-variable"),
 					qf,
-					c13Item(c13Eval("("+qn+"::"+name+" 0)"), "undefined-function"))
+					qqf)
 			}
 		}
 	}
@@ -1452,10 +1514,38 @@ func c13ReplayMap(h c13History, d *c13Diff, impl, model string) map[string]any {
 	}
 }
 
+// c13ReportForward: the fixed single-cause cell "compile a call to an undefined function in a fresh
+// package": afterwards the name must still be undefined for fboundp / find-symbol.
+func c13ReportForward(c *lib.Ctx) {
+	reg, obs := c13ProbeForward()
+	c.Ev.Coverage["compiled_forward_call_registers_placeholder"] = reg
+	c.Ev.Coverage["compiled_calls_to_names_without_entry_observed"] = !reg
+	if !reg {
+		return
+	}
+	c.Report(c13ForwardSig, true, map[string]any{
+		"entry":         "pkg.forward-call",
+		"family":        "sweep:forward-call",
+		"input":         map[string]any{"lisp": c13ForwardLisp()},
+		"observed":      obs,
+		"expected":      "the call fails as an undefined function and the name stays undefined: (fboundp 'qxfwd) => nil, find-symbol status nil",
+		"expected_from": "model:pkg.run (no operation of the history defines the name)",
+		"relies_on":     []string{"SlipVerif.Pkg.fboundp_iff_callable", "SlipVerif.Pkg.lookup_complete_run"},
+	})
+}
+
 func c13Replay(c *lib.Ctx) {
 	var rec map[string]any
 	if err := lib.ReadJSON(c.Replay, &rec); err != nil {
 		fmt.Println("cannot read replay file:", err)
+		return
+	}
+	if e, _ := rec["entry"].(string); e == "pkg.forward-call" {
+		reg, obs := c13ProbeForward()
+		fmt.Printf("replay %s\n  observed: %s\n", strings.Join(c13ForwardLisp(), " "), obs)
+		if reg {
+			c.Report(c13ForwardSig, false, rec)
+		}
 		return
 	}
 	in, _ := rec["input"].(map[string]any)
@@ -1486,6 +1576,7 @@ func runC13(c *lib.Ctx) {
 		return
 	}
 	avoid := c.Findings.Listed("C13", "prefix=chain") || c.Findings.Listed("C13", "transitive")
+	c13ReportForward(c)
 	var hs []c13History
 	sweep := c13Sweep()
 	hs = append(hs, sweep...)
